@@ -39,8 +39,8 @@ CHECKS['C05'] = dict(
         'publisher ignores ephemeral clients, and on a load-balancing publisher an idle listener never vetoes its endpoint (C05_balanced_listener_never_vetoes); the verdict is the verdict on the synchronized clients alone and a listener that leaves with CLOSE leaves the decision as it was (C05_verdict_ignores_listeners, C05_listener_leaving_keeps_decision); what an ephemeral source hands over arrives in non-decreasing upstream order for every run without a publisher restart (C05_ephemeral_order_nondecreasing) and is of one id per source (C01_no_mixed_ids_ephemeral); a CLOSE ends a half-received set (C05_close_ends_half_received_set); machines compared with the real classes; completeness of ephemeral portions by oracle.',
    note=PROTO_NOTE, technique='Coq proof (trace property over all runs; gate independence lemma) + differential correspondence', ref='§5, §6 C05')
 CHECKS['C07'] = dict(
-   text='Theorems for every item list: a balanced publisher writes each frame to exactly one branch and un-requests only that branch; the rejoined stream is strictly increasing; '
-        'first hop never prefetches; one-source/one-id of balanced sets by oracle; machines compared with the real classes.',
+   text='Theorems for every item list: a balanced publisher writes each frame to exactly one branch and un-requests only that branch; the branch it picks is one on which every consumer that is not timed out has asked or is an ephemeral listener (C07_chosen_branch_everybody_asked); the rejoined stream is strictly increasing; '
+        'first hop never prefetches; a balanced set comes from one source under one id (C07_rejoin_safe); machines compared with the real classes.',
    note=PROTO_NOTE, technique='Coq proof (publish-shape invariant over all runs, ordering invariant) + differential correspondence', ref='§5, §6 C07')
 CHECKS['C08'] = dict(
    text='Theorems over the Gallina transliteration of Filter.run (nested try/finally as an exception monad) for EVERY script of callback outcomes, policies and loop lengths: '
